@@ -847,7 +847,9 @@ def reply_harness(fx, e, outcome, hname, props, tier, data_case=None):
             clause = "reply id of `%s`, success with no success/always method: answered as if no reply had been requested (events and data passed through), no handler ran" % e["name"]
         else:
             lines.append("        match &*r { Err(Echo::Std) => {}, _ => assert!(false) }")
-            clause = "reply id of `%s`, failure with no error/always method: that error is returned, no handler ran" % e["name"]
+            lines.append("        let (tl, tb) = last_generic_text();")
+            lines.append("        assert!(tl == el as u64 && (el == 0 || tb == ec));")
+            clause = "reply id of `%s`, failure with no error/always method: that error is returned with the sub-message's own error text (length and first byte, 0-2 symbolic bytes), no handler ran" % e["name"]
         lines.append("        assert!(s.0.get() == 77);")
     lines.append("        kani::cover!(true, \"end of harness reachable\");")
     body = "\n    #[kani::proof]\n    #[kani::unwind(5)]\n    %s\n    fn %s() {\n%s\n    }\n" % (STUBS, hname, "\n".join(lines))
